@@ -733,6 +733,17 @@ func (x *c14Exec) exec(op string) string {
 			return "bad-args"
 		}
 		return x.execFrame(op, w[0] == "wfalloc", uint32(pv), wire.BitcoinNet(nt), b)
+	case "wstream":
+		if len(w) != 4 {
+			return "bad-args"
+		}
+		pv, err := strconv.ParseUint(w[1], 10, 32)
+		nt, err2 := strconv.ParseUint(w[2], 10, 32)
+		b, err3 := c14UnHex(w[3])
+		if err != nil || err2 != nil || err3 != nil {
+			return "bad-args"
+		}
+		return x.execStream(op, uint32(pv), wire.BitcoinNet(nt), b)
 	}
 	return "bad-op"
 }
@@ -1784,6 +1795,7 @@ func runC14(c *Ctx) error {
 	}
 	c.R.Rule = "corpus first (witness of the repaired defect C14-F1: 109-byte version frame with an inflated user-agent var-int). ops: wenc/wwrite (round trip of random messages of the 16 kinds + protoconf, mostly well-formed, 1 in 5 with one WF clause spoiled, x 12 negotiated protocol versions (every threshold of protocol.go with neighbours) + 5 outside, both MessageEncoding values, 4 networks), " +
 		"wframe/wdec (mutation stream over valid frames of EVERY command of makeEmptyMessage: bit flips in header/payload, truncation, length-field and count-var-int inflation, splicing, random payloads and streams, command-field damage; checksum repaired in most cases so that the decoder is reached), " +
+		"wstream (ReadMessage repeatedly on ONE reader: 2-4 frames, a frame rejected for wrong magic / unknown or non-UTF-8 command / per-command oversize / bad checksum / undecodable payload with payload length in {0,1,10239,10240,10241,20480,30720,40960,k*10240,random}, the payload filled with embedded VALID frames, followed by valid frames, sometimes a cut or stray tail; Go oracle walks the stream by the declared lengths only: every valid frame after a rejected one is returned intact, the reader stands at the next frame boundary after every call, nothing inside a rejected payload is handed out), " +
 		"var-int lattice, directed allocation candidates, wsha. A round-trip case is non-trivial when the message has at least one field; a mutation case when the frame has a full header and differs from its valid source; distinct by op line. " +
 		"Oracle (Go, independent of the model): WF(m) => decode(encode(m)) renders equal to m and re-encodes to the same bytes, ReadMessage(WriteMessage(m)) = m with the frame layout recomputed by crypto/sha256; " +
 		"no panic, no hang (60 s), TotalAlloc delta of one decode <= 8 x MaxPayloadLength(command, pver) + 64 KiB for negotiated pvers; wrong magic / bad checksum / unknown command / oversize length / truncated frames are never accepted."
@@ -1798,7 +1810,8 @@ func runC14(c *Ctx) error {
 		}
 	} else {
 		g := &c14Gen{rng: lib.Rng(c.Seed, "c14"), c: c}
-		cases = append(c14Corpus(), g.generate()...)
+		cases = append(c14Corpus(), g.streams()...)
+		cases = append(cases, g.generate()...)
 	}
 
 	x := &c14Exec{c: c, fail: c.R.Fail, measure: true}
@@ -1856,6 +1869,12 @@ func runC14(c *Ctx) error {
 			agree = true
 		case strings.HasPrefix(cs.op, "walloc ") || strings.HasPrefix(cs.op, "wfalloc "):
 			agree = c14MeterAgrees(a, impl[i])
+		case strings.HasPrefix(cs.op, "wstream "):
+			var um bool
+			agree, um = c14StreamAgrees(a, impl[i])
+			if um {
+				unmodelled++
+			}
 		}
 		if !agree {
 			c.R.Disagree(lib.Disagreement{Case: c14Short(cs.op), Op: c14Short(cs.op), Ops: []string{cs.op}, Impl: c14Short(impl[i]), Model: c14Short(a)})
